@@ -238,6 +238,13 @@ impl BitFont {
         }
         let height = u32::from_le_bytes(data[24..28].try_into().unwrap()) as usize;
         let width = u32::from_le_bytes(data[28..32].try_into().unwrap()) as usize;
+        if width == 0 || width > MAX_FONT_WIDTH || height == 0 || height > MAX_FONT_HEIGHT {
+            return Err(FontError::UnsupportedSize(width, height).into());
+        }
+        // a glyph row is one byte (width <= 8): a glyph takes exactly `height` bytes
+        if charsize != height {
+            return Err(FontError::LengthMismatch(charsize, height).into());
+        }
 
         let mut r = BitFont {
             name: font_name.into(),
@@ -392,6 +399,13 @@ fn glyphs_from_u8_data(font_height: usize, mut data: &[u8]) -> HashMap<char, Gly
 
 /// Glyphs are keyed by `char`: codes from the surrogate range (0xD800) on are not representable.
 const MAX_GLYPHS: usize = 0xD800;
+
+/// A glyph row is stored in one byte (`Glyph::data`): a glyph is 1..=8 pixels wide.
+const MAX_FONT_WIDTH: usize = 8;
+/// The tallest character cell of the VGA character generator (and of an XBin font).
+/// Sizes outside 1..=8 x 1..=32 are not fonts for a text screen: a width or height of 0 (or >= 2^30) in a
+/// loaded font makes every computation with `Buffer::get_font_dimensions` divide by zero or overflow.
+const MAX_FONT_HEIGHT: usize = 32;
 
 const DEFAULT_FONT_NAME: &str = "Codepage 437 English";
 pub const ANSI_FONTS: usize = 42;
@@ -556,6 +570,7 @@ pub enum FontError {
     UnsupportedVersion(u32),
     LengthMismatch(usize, usize),
     UnknownFontFormat(usize),
+    UnsupportedSize(usize, usize),
 }
 impl std::fmt::Display for FontError {
     fn fmt(&self, f: &mut std::fmt::Formatter<'_>) -> std::fmt::Result {
@@ -574,6 +589,9 @@ impl std::fmt::Display for FontError {
                 });
 
                 write!(f, "Unknown binary font format {size} bytes not supported. Valid format heights are: {list}")
+            }
+            FontError::UnsupportedSize(width, height) => {
+                write!(f, "glyph size {width}x{height} not supported (1x1 up to {MAX_FONT_WIDTH}x{MAX_FONT_HEIGHT})")
             }
         }
     }
